@@ -39,6 +39,17 @@ const basePreamble = `(set-option :produce-models true)
 (define-fun u2f ((x Int)) F64 ((_ to_fp_unsigned 11 53) RNE ((_ int2bv 64) x)))
 (define-fun i2f ((x Int)) F64 ((_ to_fp 11 53) RNE ((_ int2bv 64) x)))
 (define-fun f2u ((x F64)) Int (bv2nat ((_ fp.to_ubv 64) RTZ x)))
+(declare-fun u2f_u (Int) F64)
+(declare-fun i2f_u (Int) F64)
+(declare-fun f2u_u (F64) Int)
+(declare-fun fadd_u (F64 F64) F64)
+(declare-fun fsub_u (F64 F64) F64)
+(declare-fun fmul_u (F64 F64) F64)
+(declare-fun fdiv_u (F64 F64) F64)
+(declare-fun flt_u (F64 F64) Bool)
+(declare-fun fleq_u (F64 F64) Bool)
+(define-fun fgt_u ((a F64) (b F64)) Bool (flt_u b a))
+(define-fun fgeq_u ((a F64) (b F64)) Bool (fleq_u b a))
 (define-fun go_div ((a Int) (b Int)) Int (ite (>= a 0) (ite (> b 0) (div a b) (- (div a (- b)))) (ite (> b 0) (- (div (- a) b)) (div (- a) (- b)))))
 (define-fun go_rem ((a Int) (b Int)) Int (- a (* b (go_div a b))))
 `
